@@ -47,3 +47,12 @@ chk("C06",
     "Complete enumeration of the caller-TTL x builder-WithTTL-behaviour x path x cancellation grid on the three front-ends, each case run under the scheduler with all schedules; a recording backend wrapper and the builder observe the TTL of every store and the build context.",
     "Trusted: recording wrapper; 'smallest non-zero' read over signed durations. TTL values outside the grid are not explored.",
     "exhaustive enumeration of a finite input/configuration table + stateless model checking of each case", "DESIGN.md §C06")
+
+chk("C15",
+    "(seq) complete enumeration of key->label incidence structures x label argument lists (ordered, duplicates included) x deleter sets, with a Delete failure injected at every call position of the fault-free run followed by a retry; (conc) exhaustive schedule enumeration (preemption-bounded; thorough: unbounded, HB cached) of AddLabels/AddCache/InvalidateByLabels threads on a shared index with a final-sweep oracle.",
+    "Trusted: harness deleter wrappers; Go map iteration order is owned through the vinst map-range rewrite (sorted cursor). Unsynchronised memory access is left to C16.",
+    "exhaustive input and fault-position enumeration + stateless model checking of the implementation", "DESIGN.md §C15")
+chk("C17",
+    "(seq) explicit-state BFS over Invalidate/clock-advance sequences against the acceptance model; (conc) exhaustive schedule enumeration of 2-3 Invalidate callers plus a clock thread, with callbacks that contain a scheduling point so that overlap would be observable.",
+    "Trusted: virtual clock; attribution of callbacks to calls through a context value.",
+    "explicit-state BFS + stateless model checking of the implementation (preemption-bounded / HB-cached DFS)", "DESIGN.md §C17")
